@@ -163,6 +163,7 @@ fn draw_program(base: &Program) -> Program {
 pub fn run_one(fam: &Family, verif_seed: u64, run_index: u64, choices: Choices, trace: bool) -> RunResult {
     ledger::begin_run();
     ids_reset();
+    cmhost::payload::gen_handles_reset();
     call::reset_hooks();
     FOREIGN_OK.with(|f| f.borrow_mut().clear());
     crate::foreign::reset();
@@ -695,6 +696,10 @@ fn end_oracles() {
         });
         if !left.is_empty() {
             violate("H-LEAK", "end", format!("handles still open after every task finished and every Rust value was dropped: {left:?}"));
+        }
+        let gh = cmhost::payload::gen_handles_left();
+        if !gh.is_empty() {
+            violate("H-HANDLE", "end", format!("own<thing> handles {gh:?} that travelled as payloads are still in the guest's table after every Rust value was dropped (leak)"));
         }
         let live = ledger::live_blocks();
         if !live.is_empty() {
